@@ -14,6 +14,7 @@ type htmlState struct {
 	Attr string // current attribute (lower case)
 	Js   string // inside SCRIPT: stack of lexical contexts, innermost last (see advanceHTML): "" = code
 	Esc  bool   // inside a JS string: previous char was a backslash
+	Dol  bool   // inside a template literal: previous char was an unescaped $ (a following { opens an interpolation)
 	Raw  string // SCRIPT/STYLE: pending text that may be the start of the end tag
 	Pend string // partial token (comment opener etc.)
 }
@@ -25,6 +26,9 @@ func (s htmlState) Key() string {
 	case "SCRIPT":
 		if s.Esc {
 			return "SCRIPT:" + s.Js + ":esc"
+		}
+		if s.Dol {
+			return "SCRIPT:" + s.Js + ":dollar"
 		}
 		return "SCRIPT:" + s.Js
 	case "INTAG", "ATTRNAME", "AFTERNAME", "BEFOREVALUE", "TAGNAME":
@@ -48,6 +52,9 @@ func parseHTMLKey(k string) htmlState {
 		}
 		if len(p) >= 3 && p[2] == "esc" {
 			s.Esc = true
+		}
+		if len(p) >= 3 && p[2] == "dollar" {
+			s.Dol = true
 		}
 		s.Tag = "script"
 	case "STYLE":
@@ -207,7 +214,11 @@ func advanceHTML(s htmlState, lit string) htmlState {
 					s.Js = s.Js[:len(s.Js)-1]
 				}
 			case "'", "\"", "`":
+				wasDol := s.Dol
+				s.Dol = false
 				switch {
+				case wasDol && c == '{':
+					s.Js += "{" // the $ that ended the previous literal and this { open an interpolation
 				case s.Esc:
 					s.Esc = false
 				case c == '\\':
@@ -219,6 +230,8 @@ func advanceHTML(s htmlState, lit string) htmlState {
 				case c == '$' && top == "`" && i+1 < len(lit) && lit[i+1] == '{':
 					s.Js += "{" // ${ opens an interpolation: what follows is code until the matching }
 					i++
+				case c == '$' && top == "`":
+					s.Dol = true
 				}
 			case "//":
 				if c == '\n' {
